@@ -35,7 +35,7 @@ def tree_hash(root, patterns):
 
 def sweep_key(source, tier, seed):
     repo = tree_hash(vlib.REPO, ["src/**/*.rs", "Cargo.toml", "Cargo.lock", "tests/inputs*/*.lua"])
-    mine = tree_hash(vlib.VERIF, ["harness/src/*.rs", "harness/Cargo.toml", "spec/*.tla", "spec/*.cfg", "tools/*.py"])
+    mine = tree_hash(vlib.VERIF, ["harness/src/*.rs", "harness/Cargo.toml", "spec/*.tla", "spec/*.cfg", "tools/sources.py", "tools/vlib.py"])
     return content_key([repo, mine, source, tier, str(seed)])
 
 
@@ -78,7 +78,9 @@ def run_sweep(source, tier, seed):
         rwall = time.time() - t1
         log("[R] replayed in %.1fs" % rwall)
         t2 = time.time()
-        verdicts, vstats = vlib.validate(trace_p, "Trace_Lib", "Trace_Lib.cfg", "v_" + source, parallel=10)
+        tmod = sources.TRACE_SPEC.get(source, "Trace_Lib")
+        verdicts, vstats = vlib.validate(trace_p, tmod, tmod + ".cfg", "v_" + source, parallel=10,
+                                         boundary=("Lit",) if tmod == "Trace_Strings" else ("Render",))
         log("[V] %d events validated in %.1fs, %d verdict records" % (vstats["events"], time.time() - t2, len(verdicts)))
         if vstats["tool_errors"]:
             shutil.rmtree(d, ignore_errors=True)
@@ -121,6 +123,15 @@ def trace_stats(trace_p):
                         nonid.add(mi.group(1))
             elif ev == "Render" and '"in_parse":"err"' in line:
                 n["dropped_not_in_domain"] += 1
+            elif ev == "Lit":
+                if '"lexer_ok":false' in line:
+                    n["dropped_not_in_domain"] += 1
+                else:
+                    n["format_calls"] += line.count('"style":')
+                    if line.count('"outcome":') > 1 or '"q_out":"SQ"' in line or '"text_out"' in line:
+                        mi = re.search(r'"idx":(\d+)', line)
+                        if mi:
+                            nonid.add(mi.group(1))
     n["nonidentity_cases"] = len(nonid)
     return n
 
@@ -186,7 +197,7 @@ def run(pid, tier, seed, args, t0):
         cs = cases_for(os.path.join(m["dir"], "cases.ndjson"), idxs)
         for v, f in mine:
             case = cs.get(v["idx"], {})
-            ce = [e for e in evs.get(v["idx"], []) if e.get("variant", v.get("variant")) == v.get("variant") or e.get("ev") == "Render"]
+            ce = [e for e in evs.get(v["idx"], []) if e.get("variant", v.get("variant")) == v.get("variant") or e.get("ev") in ("Render", "Lit")]
             sig = signatures.signature(pid, f["w"], src, case, ce)
             rec = {"property": pid, "what": f["w"], "source": src, "signature": sig, "case": case, "events": ce}
             if (pid, sig) in known_sigs:
